@@ -6,12 +6,14 @@ package dtls
 import (
 	"bytes"
 	"encoding/gob"
+	"hash"
 	"sync/atomic"
 
 	"github.com/pion/dtls/v3/internal/ciphersuite"
 	dtlserrors "github.com/pion/dtls/v3/internal/errors"
 	dtlsstate "github.com/pion/dtls/v3/internal/state"
 	dtlsutil "github.com/pion/dtls/v3/internal/util"
+	"github.com/pion/dtls/v3/pkg/crypto/keyschedule"
 	"github.com/pion/dtls/v3/pkg/crypto/prf"
 	"github.com/pion/dtls/v3/pkg/protocol"
 	"github.com/pion/dtls/v3/pkg/protocol/handshake"
@@ -31,6 +33,7 @@ type State struct {
 	rrcNegotiated             bool
 	isClient                  bool
 	version                   protocol.Version
+	exporterSecret            []byte // DTLS 1.3 exporter_master_secret (RFC 8446 Section 7.5)
 
 	CipherSuiteID      CipherSuiteID
 	PeerCertificates   [][]byte
@@ -136,6 +139,7 @@ func generateState13(internalState *dtlsstate.State13) (*State, error) {
 		rrcNegotiated:         common.RRCNegotiated,
 		isClient:              common.IsClient,
 		version:               protocol.Version1_3,
+		exporterSecret:        bytes.Clone(internalState.KeySchedule.ExporterMasterSecret),
 		CipherSuiteID:         internalState.CipherSuite.ID(),
 		PeerCertificates:      dtlsutil.CloneByteSlices(common.PeerCertificates),
 		IdentityHint:          bytes.Clone(common.IdentityHint),
@@ -325,6 +329,10 @@ func (s *State) ExportKeyingMaterial(label string, context []byte, length int) (
 		return nil, err
 	}
 
+	if s.version.Equal(protocol.Version1_3) {
+		return exportKeyingMaterial13(cipherSuite.HashFunc(), s.exporterSecret, label, length)
+	}
+
 	localRandom := s.localRandom.MarshalFixed()
 	remoteRandom := s.remoteRandom.MarshalFixed()
 
@@ -336,6 +344,20 @@ func (s *State) ExportKeyingMaterial(label string, context []byte, length int) (
 	}
 
 	return prf.PHash(s.masterSecret, seed, length, cipherSuite.HashFunc())
+}
+
+// exportKeyingMaterial13 implements the exporter of RFC 8446 Section 7.5 with an empty context:
+// HKDF-Expand-Label(Derive-Secret(exporter_master_secret, label, ""), "exporter", Hash(""), length).
+func exportKeyingMaterial13(hashFunc func() hash.Hash, exporterSecret []byte, label string, length int) ([]byte, error) {
+	if len(exporterSecret) == 0 {
+		return nil, dtlserrors.ErrHandshakeInProgress
+	}
+	derived, err := keyschedule.DeriveSecret(hashFunc, exporterSecret, label, nil)
+	if err != nil {
+		return nil, err
+	}
+
+	return keyschedule.HkdfExpandLabel(hashFunc, derived, "exporter", hashFunc().Sum(nil), length)
 }
 
 // RemoteRandomBytes returns the remote client hello random bytes.
